@@ -93,15 +93,17 @@ def pushInn (g : Graph) (n e : Nat) : Graph :=
   | .node o i => g.setSlot n (.node o (e :: i))
   | _ => g
 
-/-- `insert().edges().from(a).to(b)`: both ends must be existing nodes (`db_id` → `NotFound`). -/
+/-- `insert().edges().from(a).to(b)`: both ids must exist (`db_id` → `NotFound`) and be nodes
+(`GraphImpl::insert_edge` → `validate_node` → `InvalidIndex` for an edge id). -/
 def insertEdge (g : Graph) (a b : Int) : Outcome (Int × Graph) :=
-  if g.isNode a && g.isNode b then
+  if !g.isElem a || !g.isElem b then .err .notFound
+  else if g.isNode a && g.isNode b then
     let (i, g1) := g.allocSlot
     let g2 := g1.setSlot i (.edge a.toNat b.toNat)
     let g3 := g2.pushOut a.toNat i
     let g4 := g3.pushInn b.toNat i
     .ok (-(Int.ofNat i), g4)
-  else .err .notFound
+  else .err .invalidIndex
 
 def dropVals (g : Graph) (i : Nat) : Graph := { g with vals := g.vals.filter (fun t => t.1 != i) }
 
